@@ -308,6 +308,7 @@ ChildPlan World::OnSpawn(Kernel& kk, const std::string& cmd, bool console) {
   rec.planned_status = status;
   plan.on_signal = r.plan.on_signal;
   plan.tag = id;
+  if (prof->multi_process_cmds) plan.multi_process = tape->Choice(st_stream, 2) == 1;
 
   // output chunks: self-identifying so that every byte is attributable
   std::string all_out;
